@@ -5,6 +5,8 @@ replayed into the real objects; recorded traces validated by TLC."""
 import json, os
 import vlib
 
+HEAP = {"JAVA_TOOL_OPTIONS": "-Xmx6g"}     # many JVMs run side by side; the default cap is 1/4 of the RAM each
+
 LEVEL = "model_checking"
 
 MANIFEST = dict(
@@ -39,7 +41,7 @@ def consts(bound, maxhist=0):
 def _validate(ck, sw, name, beh, label, scale=1):
     trace = os.path.join(ck.work, "trace_%s.ndjson" % name)
     summ, _ = vlib.run_replay(["slotseq", "-in", beh, "-out", trace, "-mode", str(scale)])
-    bads, r = vlib.validate_trace(sw, "SlotSeqMonTrace", "SlotSeqMonTrace.cfg", trace, parallel=ck.par)
+    bads, r = vlib.validate_trace(sw, "SlotSeqMonTrace", "SlotSeqMonTrace.cfg", trace, parallel=ck.par, extra_env=HEAP)
     ck.cov["evaluations"] += summ["scenarios"]
     ck.cov["distinct_nontrivial"] += summ["nontrivial"]
     ck.cov["traces_validated_against_impl"] += summ["scenarios"] - len({b[0] for b in bads})
@@ -83,7 +85,7 @@ def run(ck):
     def strict(bound):
         c = consts(bound)
         cfg = vlib.cfg_with(sw, "SlotSeqImpl_strict.cfg", c)
-        r = vlib.tlc(sw, "SlotSeqImpl", cfg, workers=8, timeout=2400)
+        r = vlib.tlc(sw, "SlotSeqImpl", cfg, env=HEAP, workers=8, timeout=2400)
         ck.add_tlc("SlotSeqImpl exhaustive (monitor clean, invariants)", r, c)
         if not r.ok:
             ck.cov["model_findings"].append("strict %s: %s" % (bound, r.violated or r.error))
@@ -93,7 +95,7 @@ def run(ck):
     def cover(bound):
         c = consts(bound)
         cfg = vlib.cfg_with(sw, "SlotSeqImpl_mc.cfg", c)
-        r = vlib.tlc(sw, "SlotSeqImpl", cfg, workers=4, timeout=2400)
+        r = vlib.tlc(sw, "SlotSeqImpl", cfg, env=HEAP, workers=4, timeout=2400)
         if not r.ok:
             raise vlib.Inconclusive("SlotSeqImpl cover %s: %s\n%s" % (bound, r.violated or r.error, r.tail()))
         ck.add_tlc("SlotSeqImpl transition cover", r, c)
@@ -110,7 +112,7 @@ def run(ck):
     def sim(k, bound, num, hist, scale=1):
         c = consts(bound, maxhist=hist)
         cfg = vlib.cfg_with(sw, "SlotSeqImpl_sim.cfg", c)
-        r = vlib.tlc(sw, "SlotSeqImpl", cfg, workers=1 if quick else 4, simulate=num, depth=3 * hist,
+        r = vlib.tlc(sw, "SlotSeqImpl", cfg, env=HEAP, workers=1 if quick else 4, simulate=num, depth=3 * hist,
                      seed=ck.seed * 1000 + k, timeout=1800)
         if r.violated or r.error:
             raise vlib.Inconclusive("SlotSeqImpl simulation %s: %s\n%s" % (bound, r.violated or r.error, r.tail()))
